@@ -35,3 +35,16 @@ def corpus(kind="MMD6Tests"):
         name = os.path.basename(f)[:-5]
         out[name] = open(f, "rb").read()
     return out
+
+
+DELIMS = ["`", "``", "\'\'", "\'", "\"", "*", "**", "_", "[", "]", "(", ")", "<", ">", "$", "$$", "^", "~", "{++", "++}", "{--", "--}", "\\\\(", "[^", "[#", "<<", ">>"]
+
+
+def delimiter_soup():
+    """every ordered pair of inline delimiters in three shapes: the pairing passes meet every delimiter inside every other -> [(shape index, a, b, text)]"""
+    out = []
+    for a in DELIMS:
+        for b in DELIMS:
+            for k, d in enumerate(("%s x = %s end" % (a, b), "%sx = %s %s" % (a, b, a), "%s%s%s y" % (a, b, a))):
+                out.append((k, a, b, d + "\n"))
+    return out
